@@ -81,11 +81,11 @@ def build(ctx, rnd, L, M):
             r = M.response(cc, nsess=rnd.choice([0, 1, 2]), encrypt=False)
             if r:
                 cases.append(ds.Case("Response", cc, enc, r[1] if rnd.random() < 0.5 else mutate(r[1]), "rsp_flag"))
-        c = M.command(cc, nsess=rnd.choice([1, 2]))
+        # sessions requesting decryption / response encryption regardless of the command's parameters (also for commands whose
+        # parameter area does not start with a TPM2B), unmutated and mutated
+        c = M.command(cc, nsess=rnd.choice([1, 2]), decrypt=rnd.random() < 0.6, encrypt=rnd.random() < 0.4)
         if c:
-            # set decrypt / encrypt in the first session's attributes regardless of the command's parameters
-            b = bytearray(c[1])
-            cases.append(ds.Case("Command", None, False, mutate(bytes(b)), "cmd_gen_mutated"))
+            cases.append(ds.Case("Command", None, False, c[1] if rnd.random() < 0.4 else mutate(c[1]), "cmd_gen_mutated"))
     for c in cases:
         if c.tname == "Response" and c.cc is None:
             c.cc = rnd.choice(ccs)
